@@ -105,6 +105,7 @@ func NewEnv(seed uint64, c *hb.Cluster) *Env {
 func (e *Env) Begin() {
 	e.T0 = time.Now()
 	e.C.Now = func() int64 { return int64(time.Since(e.T0)) }
+	e.C.StepFn = func() uint64 { return e.Step }
 }
 
 // Now returns fake time since the start of the run.
